@@ -412,7 +412,9 @@ pub fn run_mem_build(case: &MemBuildCase) -> MemBuildRun {
     let sink = sink.handle();
     let (tap, _tap_st) = Tap::new(sink.clone(), case.bufcap);
     let mut key: Vec<u8> = Vec::with_capacity(fam.keylen as usize + 8);
-    let front = if case.map { Front::Map } else { Front::Set };
+    // prologue bits 2 and 3: the raw builder, whose `insert` (with an output)
+    // and `add` (without) may be mixed on one object
+    let front = if case.prologue & 12 != 0 { Front::Raw } else if case.map { Front::Map } else { Front::Set };
     let mut run = MemBuildRun {
         bound: 0,
         after_new: 0,
@@ -557,6 +559,11 @@ pub fn run_mem_build(case: &MemBuildCase) -> MemBuildRun {
             let r = match &mut b {
                 AnyBuilder::Map(m) => m.insert(&key, fam.value(i)),
                 AnyBuilder::Set(s) => s.insert(&key),
+                // bit 2: ONE valued key (a header row), then adds only;
+                // bit 3: the first half with outputs, the second half without
+                AnyBuilder::Raw(r) if (case.prologue & 4 != 0 && i == first) || (case.prologue & 8 != 0 && i < fam.n / 2) => {
+                    r.insert(&key, fam.value(i) | 1)
+                }
                 AnyBuilder::Raw(r) => r.add(&key),
             };
             match r {
